@@ -124,6 +124,15 @@ def run_c17(t, tier, res):
     lines = guesser.split_lines(text)
     total = len(lines)
     if total == 0:
+        # nothing written: fine only if the reference PRINCE language is empty too
+        try:
+            ref0 = RefRuleset(rdir, skip_case=lower, folder="Prince")
+            n0 = sum(1 for _ in ref0.language())
+        except Exception:
+            n0 = 0
+        if n0:
+            res.violate("C17", "wordlist_is_not_the_prince_language", {"written": 0, "reference_word_groups": n0})
+            return
         res.rejected = "empty_prince_grammar"
         return
     if total > 4000:
@@ -267,6 +276,8 @@ def run_c20(t, tier, res):
         menu = menu + ["A60", "D40", "A100", "O99", "D101", "A228"]      # multi-digit / three-digit lengths
     spec = worlds.gen_syn(t, allow_m=t.chance(1, 2), max_pts=300, max_structs=6, max_vars=4, menu=menu,
                           pools=["normalised", "dyadic", "decimal"])
+    if t.chance(1, 6):
+        spec["encoding"] = t.choice(["utf-8-sig", "iso-8859-1", "cp1251"])
     rdir = os.path.join(wr, "Rules", "R")
     worlds.write_ruleset(spec, rdir)
     # a hand-edited base-structure file: last line without a line end, or CRLF line ends
